@@ -507,6 +507,17 @@ func c13Archives(ctx context.Context, c *core.C, w *c13World, kinds []c13Kind, p
 		tw.Write([]byte("ok"))
 		tarOK = tw.Close() == nil
 	}
+	// a symlink entry whose target is p, followed by a regular entry beneath the link's name: an
+	// unpacker that materialised the link would write through it
+	var linkBuf bytes.Buffer
+	lw := tar.NewWriter(&linkBuf)
+	linkOK := lw.WriteHeader(&tar.Header{Name: "lnk", Linkname: p, Mode: 0o777, Typeflag: tar.TypeSymlink, Format: tar.FormatPAX}) == nil
+	if linkOK {
+		lw.WriteHeader(&tar.Header{Name: "lnk/b.proto", Mode: 0o644, Size: 3, Typeflag: tar.TypeReg, Format: tar.FormatPAX})
+		lw.Write([]byte("NEW"))
+		lw.WriteHeader(&tar.Header{Name: "hard", Linkname: p, Mode: 0o644, Typeflag: tar.TypeLink, Format: tar.FormatPAX})
+		linkOK = lw.Close() == nil
+	}
 	var zipBuf bytes.Buffer
 	zw := zip.NewWriter(&zipBuf)
 	zipOK := false
@@ -521,6 +532,17 @@ func c13Archives(ctx context.Context, c *core.C, w *c13World, kinds []c13Kind, p
 		k := &kinds[ki]
 		if k.rw == nil {
 			continue
+		}
+		if linkOK && k.disk {
+			err := storagearchive.Untar(ctx, bytes.NewReader(linkBuf.Bytes()), k.rw)
+			c13After(c, w, k, "untar(symlink+hardlink entries)", p, model.PathInfo{}, err, true)
+			c.Count("archive_link_ops", 1)
+			// neither link may exist as a link inside the root
+			for _, name := range []string{"lnk", "hard"} {
+				if fi, lerr := os.Lstat(filepath.Join(w.rootDir, name)); lerr == nil && fi.Mode()&os.ModeSymlink != 0 {
+					c.Violation("archive-symlink-materialised", fmt.Sprintf("kind=%s op=untar path=%q", k.name, p), "a symlink entry of the archive was created on disk: "+name, nil)
+				}
+			}
 		}
 		for strip := uint32(0); strip <= 2; strip++ {
 			if tarOK {
@@ -628,6 +650,6 @@ func init() {
 				c13CLI(c, idx-n-extra)
 			}
 		},
-		Required: []string{"paths", "escaping_paths", "outside_snapshots", "archive_ops", "rejections_checked", "cli_runs", "cli_escaping_runs"},
+		Required: []string{"paths", "escaping_paths", "outside_snapshots", "archive_ops", "archive_link_ops", "rejections_checked", "cli_runs", "cli_escaping_runs"},
 	})
 }
